@@ -41,8 +41,46 @@ type Cron struct {
 	location  *time.Location
 	parser    ScheduleParser
 	nextID    EntryID
-	jobWaiter sync.WaitGroup
+	jobWaiter jobWaiter
 	clk       clock.Clock
+}
+
+// jobWaiter counts the jobs that are running. Unlike a sync.WaitGroup it may be
+// waited on while jobs keep being started: a Cron can be started again after Stop,
+// while the context returned by that Stop still waits for the jobs of before.
+type jobWaiter struct {
+	mu      sync.Mutex
+	running int
+	// idle is closed when running drops to zero and replaced when it leaves zero
+	idle chan struct{}
+}
+
+func (w *jobWaiter) Add() {
+	w.mu.Lock()
+	if w.running == 0 {
+		w.idle = make(chan struct{})
+	}
+	w.running++
+	w.mu.Unlock()
+}
+
+func (w *jobWaiter) Done() {
+	w.mu.Lock()
+	w.running--
+	if w.running == 0 {
+		close(w.idle)
+	}
+	w.mu.Unlock()
+}
+
+// Wait returns once no job is running.
+func (w *jobWaiter) Wait() {
+	w.mu.Lock()
+	running, idle := w.running, w.idle
+	w.mu.Unlock()
+	if running > 0 {
+		<-idle
+	}
 }
 
 // ScheduleParser is an interface for schedule spec parsers that return a Schedule
@@ -339,7 +377,7 @@ func (c *Cron) run() {
 
 // startJob runs the given job in a new goroutine.
 func (c *Cron) startJob(j Job) {
-	c.jobWaiter.Add(1)
+	c.jobWaiter.Add()
 	go func() {
 		defer c.jobWaiter.Done()
 		j.Run()
